@@ -40,7 +40,7 @@ def _case(draw):
     sc = draw(
         S.simple_screen(
             n_samples=(1, 3),
-            n_treat=(1, 3),
+            n_treat=draw(st.sampled_from([(1, 3), (3, 8)])),  # few conditions (duplicates across plates) or many (unions without duplicates)
             n_rows=(1, 16),
             n_plates=(1, 8) if not policy_k else (1, 4),
             arity=draw(st.sampled_from([1, 2, 2])),
@@ -56,8 +56,8 @@ def _case(draw):
     n_pl = len(plates)
     return {
         "screen": sc,
-        "n_chunks": draw(st.integers(1, n_pl + 3)),
-        "batch_picks": draw(st.lists(st.integers(0, 20), max_size=3)),
+        "n_chunks": draw(st.one_of(st.integers(1, n_pl + 3), st.sampled_from([1, 1, 2]))),
+        "batch_picks": draw(st.one_of(st.lists(st.integers(0, 20), max_size=3), st.lists(st.integers(0, 20), min_size=1, max_size=2))),
         "batch_repeat": draw(st.booleans()),
         "scores": [draw(_score) for _ in range(n_pl)],
         "order_seed": draw(st.integers(0, 10**6)),
